@@ -1,4 +1,5 @@
 import Lemmas.Conserve
+import Model.Program
 import Lemmas.Untouched
 import Lemmas.Demo
 /-!
@@ -124,6 +125,49 @@ theorem unmentioned_keeps_default (P : Prog) (args : List Str) (oid : Nat)
     (hnm : ¬ Mentioned mode P args oid) :
     (parseArgs ext mode P args).P.opt oid = P.opt oid :=
   untouched_keeps ext mode P args oid hnm
+
+/-! ## `SetValue` -/
+
+/-- **`SetValue` changes the value only.**  Whatever name and values are given, on whatever object: every
+option's `Called` and `CalledAs` are what they were, and every option other than the one registered under
+`name` in that object's table is untouched altogether. -/
+theorem setValue_keeps_called (P : Prog) (n : Nat) (name : Str) (vals : List Str) (oid : Nat) :
+    ((setValue ext P n name vals).1.opt oid).called = (P.opt oid).called ∧
+    ((setValue ext P n name vals).1.opt oid).usedAlias = (P.opt oid).usedAlias ∧
+    (lookup name (P.node n).opts ≠ some oid → (setValue ext P n name vals).1.opt oid = P.opt oid) := by
+  unfold setValue
+  cases hl : lookup name (P.node n).opts with
+  | none => exact ⟨rfl, rfl, fun _ => rfl⟩
+  | some t =>
+    simp only
+    cases hs : save ext false (P.opt t) vals with
+    | error e => exact ⟨rfl, rfl, fun _ => rfl⟩
+    | ok o' =>
+      simp only
+      have hk := save_keeps ext false (P.opt t) o' vals hs
+      by_cases ht : oid = t
+      · subst ht
+        by_cases hlen : oid < P.opts.length
+        · rw [opt_setOpt_same P oid o' hlen]
+          exact ⟨hk.1, hk.2.1, fun h => absurd rfl h⟩
+        · have : P.setOpt oid o' = P := by
+            unfold Prog.setOpt
+            have : P.opts.set oid o' = P.opts := by
+              apply List.ext_getElem?
+              intro i; rw [List.getElem?_set]; split
+              · rename_i hi; subst hi; simp at hlen; simp [hlen]
+              · rfl
+            rw [this]
+          rw [this]
+          exact ⟨rfl, rfl, fun _ => rfl⟩
+      · rw [opt_setOpt_ne P t oid o' ht]
+        exact ⟨rfl, rfl, fun _ => rfl⟩
+
+/-- an undeclared name is reported and changes nothing -/
+theorem setValue_not_found (P : Prog) (n : Nat) (name : Str) (vals : List Str)
+    (h : lookup name (P.node n).opts = none) : setValue ext P n name vals = (P, .notFound) := by
+  simp [setValue, h]
+
 
 /-- on the demo program: `--num=1 -v cmd --force x` mentions neither `name` (option 0) nor `list`
 (option 2), and they are as declared after the parse -/
